@@ -301,7 +301,15 @@ def field_to_abstract(d, val, fobj):
 
 
 def to_abstract(schema, inst):
-    return [field_to_abstract(d, f.get_value(inst), f) for d, f in zip(schema, model_fields(type(inst)))]
+    """fields are looked up by NAME (the descriptors carry the attribute names of the library classes), so a class
+    whose declaration order differs from the schema is projected faithfully and shows up as different values,
+    not as a driver error; a field the class does not have is reported as {"k": "missing-field"}."""
+    by_name = {f.name: f for f in model_fields(type(inst))}
+    out = []
+    for d in schema:
+        f = by_name.get(d['name'])
+        out.append({'k': 'missing-field'} if f is None else field_to_abstract(d, f.get_value(inst), f))
+    return out
 
 
 # ------------------------------------------------------------------ projections wire -> abstract tree
